@@ -45,6 +45,39 @@ def run(cx):
                 txt = bytes.fromhex(a[6:])
                 if len(txt) >= 32 and set(txt) <= set(b'012'):
                     lits.append(txt.decode())
+        if not lits:
+            # the digit string kept as a byte-string constant (`const DIGITS: &[u8; 65] = b"0010.."`): every constant
+            # the function (or its promoted temporaries) refers to whose bytes are all '0' / '1' / '2'
+            from ..facts import item_bytes
+            seen_ = set()
+            def scan(x):
+                if isinstance(x, dict):
+                    if x.get('k') == 'const' and isinstance(x.get('c'), dict):
+                        c_ = x['c']
+                        raw = None
+                        it_ = c_.get('item') or c_.get('static')
+                        if it_ and it_ in F.items:
+                            raw = item_bytes(F.items[it_])
+                        elif c_.get('bytes'):
+                            try:
+                                raw = bytes.fromhex(c_['bytes'])
+                            except Exception:
+                                raw = None
+                        if raw and len(raw) >= 32 and set(raw) <= set(b'012') and raw not in seen_:
+                            seen_.add(raw)
+                            lits.append(raw.decode())
+                    for v_ in x.values():
+                        scan(v_)
+                elif isinstance(x, list):
+                    for v_ in x:
+                        scan(v_)
+            scan(fn.blocks)
+            scan(fn.promoted)
+            for it_name, it_ in F.items.items():
+                if it_name.startswith('gm_sm9::') and not lits:
+                    raw = item_bytes(it_)
+                    if raw and len(raw) >= 32 and set(raw) <= set(b'012') and any(it_name in str(bl) for bl in fn.blocks + fn.promoted):
+                        lits.append(raw.decode())
         ok = False
         val = None
         if len(lits) == 1:
@@ -53,7 +86,7 @@ def run(cx):
                 val = 2 * val + {'0': 0, '1': 1, '2': -1}[ch]
             ok = val == s.miller
         cx.add('K-SM9-MILLER', 'digits', ok, 'signed-digit string "1"+abits (2 = -1) evaluates to 6t+2 = %s (got %s, %d literal(s))' % (hex(s.miller), hex(val) if val else None, len(lits)), fn.loc())
-        lp = I.find_loop(fn, P, cn, 'Range::Range{0, len(collect(chars(')
+        lp = I.find_loop(fn, P, cn, 'Range::Range{0, len(collect(chars(') or I.find_loop(fn, P, cn, '', containing_call='sm9_u256_eval_g_tangent')
         if lp is None:
             cx.violate('I-MILLER', 'loop', 'the digit loop was not found', fn.loc())
         else:
@@ -64,10 +97,10 @@ def run(cx):
             for b in sorted(loop, key=lambda x: (len(dom.get(x, ())), x)):
                 t = fn.blocks[b]['term']
                 if t['k'] == 'call' and t['fn']['k'] == 'def' and t['fn']['local']:
-                    conds = [c for c in select_conds(fn, P, b, cn) if c.startswith(('Eq(index(', 'Ne(index('))]
+                    conds = [c for c in select_conds(fn, P, b, cn) if c.startswith(('Eq(', 'Ne('))]
                     digit = []
                     for c in conds:
-                        m = re.match(r'(Eq|Ne)\(index\(.*\), (\d+)\)=(\w+)$', c)
+                        m = re.match(r'(Eq|Ne)\(.*, (49|50)\)=(\w+)$', c)
                         if m:
                             truth = (m.group(3) != '0') if m.group(1) == 'Eq' else (m.group(3) == '0')
                             digit.append(('=' if truth else '!=') + chr(int(m.group(2))))
@@ -99,8 +132,17 @@ def run(cx):
     if f1 is not None and f2 is not None:
         p1, l1, r1 = line_fn_shape(cx, f1)
         p2, l2, r2 = line_fn_shape(cx, f2)
-        cx.add('S-LINE', 'lines', l1 == l2 and bool(l1), 'both chord-line evaluators store the same three line coefficients (given the same pre values): %d stores' % len(l1), f2.loc(), {'with_pre': l1, 'no_pre': l2})
-        cx.add('S-LINE', 'point', r1 == r2 and bool(r1), 'both return the same updated point T + Q', f2.loc())
+        # the no-pre variant may simply compute `pre` and hand over to its sibling: then the two agree by construction
+        deleg = False
+        for b_, i_ in G.ret_def_sites(f2):
+            if i_ == -1:
+                t_ = f2.blocks[b_]['term']
+                if t_['fn']['k'] == 'def' and t_['fn']['name'] == f1.name and len(t_['args']) == 5:
+                    P2_ = Prov(f2, F); c2_ = Canon(f2, P2_)
+                    a_ = [c2_.c(x) for x in G.call_args(f2, P2_, b_)]
+                    deleg = a_[0] == '$lw' and a_[2:] == ['$p', '$t', '$q'] and 'pre' in a_[1]
+        cx.add('S-LINE', 'lines', deleg or (l1 == l2 and bool(l1)), 'both chord-line evaluators store the same three line coefficients (given the same pre values): %s' % ('the no-pre variant delegates to its sibling with (lw, pre, p, t, q)' if deleg else '%d stores' % len(l1)), f2.loc(), {'with_pre': l1, 'no_pre': l2})
+        cx.add('S-LINE', 'point', deleg or (r1 == r2 and bool(r1)), 'both return the same updated point T + Q', f2.loc())
         want = [('0', 'fp_sqr($t.y)'), ('4', 'fp_mul($t.x, $t.z)'), ('4', 'fp_double(pre[4])'), ('1', 'fp_sqr($t.z)'), ('1', 'fp_mul($t.z, pre[1])'),
                 ('2', 'fp_mul_fp(pre[1], $q.y)'), ('2', 'fp_double(pre[2])'), ('3', 'fp_mul_fp(pre[1], $q.x)'), ('3', 'fp_double(pre[3])'), ('3', 'fp_neg(pre[3])')]
         cx.add('S-LINE', 'pre', p2 == want, 'the no-pre variant computes the five pre values exactly as sm9_u256_pairing does (with its t in the role of Q and q in the role of affine P)', f2.loc(), {'got': p2})
